@@ -44,7 +44,7 @@ let show_rows d =
     " " ^ string_of_int (List.length ids) ^ String.concat "" (List.map (fun x -> " " ^ string_of_int (int_of_nat x)) ids)) d.d_rows)
 let show c s = Printf.sprintf "%s %s ;%s ; %s" (zi s.ps_o.ox.ivalue) (zi s.ps_o.oy.ivalue) (show_pl (write_back c s.ps_d)) (show_rows s.ps_d)
 let err_name = function EWhileFuel -> "EWhileFuel" | EWalkFuel -> "EWalkFuel" | EUnplaced -> "EUnplaced" | EThrow -> "EThrow"
-  | EUndefined -> "EUndefined" | EConstruct -> "EConstruct"
+  | EUndefined -> "EUndefined" | EConstruct -> "EConstruct" | EOracle -> "EOracle" | ERecord -> "ERecord"
 
 let do_rn () =
   let c = read_pcircuit () in
@@ -87,6 +87,46 @@ let do_rw () =
       | RErr e -> Buffer.add_string b (" / ERR " ^ err_name e));
     print_endline (Buffer.contents b)
 
+(* RS <rows> <cells (legalized)> <nets> p1..p7 nrec (k cell*k nnodes (kind id potential)*nnodes narcs (src tgt cost flow)*narcs)*nrec :
+   run_passes_c with the recorded answers of the runShiftsOnCells calls of the C++ run (harness/drun.cpp, DS cases): the model makes
+   its OWN calls (rows sets, windows), checks each record against its call (cells, network) and accepts lemon's answer only through
+   ShiftLp.shift_cert_ok.  "INIT ... / CB ... / FINAL ... / REST n" (n = records not consumed), or "... / ERR name". *)
+let node_of kd id = match kd with 0 -> NCell (nat_of_int id) | 1 -> NL (nat_of_int id) | 2 -> NU (nat_of_int id) | _ -> NFixed
+let read_answer () =
+  let k = nexti () in let cells = rep k (fun () -> nat_of_int (nexti ())) in
+  let nn = nexti () in
+  let nodes = Array.of_list (rep nn (fun () -> let kd = nexti () in let id = nexti () in let pt = nexti () in (node_of kd id, pt))) in
+  let pot = Hashtbl.create 64 in
+  Array.iter (fun (n, pt) -> Hashtbl.replace pot n (z_of_int pt)) nodes;
+  let pi n = match Hashtbl.find_opt pot n with Some v -> v | None -> Z0 in
+  let na = nexti () in
+  let flows = rep na (fun () -> let s = nexti () in let t = nexti () in let c = z () in let f = z () in
+    let lab i = if i >= 0 && i < Array.length nodes then fst nodes.(i) else NFixed in (((lab s, lab t), c), f)) in
+  {sa_cells = cells; sa_pi = pi; sa_flows = flows}
+
+let do_rs () =
+  let c = read_pcircuit () in
+  let nets = read_nets () in
+  let a = z () in let b_ = z () in let c_ = z () in let d_ = z () in let e_ = z () in let f_ = z () in let g_ = z () in
+  let prm = {dp_nbPasses = a; dp_localSearchNbNeighbours = b_; dp_localSearchNbRows = c_; dp_shiftNbRows = d_;
+             dp_shiftMaxNbCells = e_; dp_reorderingNbRows = f_; dp_reorderingMaxNbCells = g_} in
+  let nrec = nexti () in
+  let answers = rep nrec read_answer in
+  match from_circuit c with
+  | DErr _ -> print_endline "ERR"
+  | DOk d0 ->
+    let s0 = {ps_d = d0; ps_o = init_models c nets} in
+    let b = Buffer.create 256 in
+    Buffer.add_string b ("INIT " ^ show c s0);
+    if not (params_ok prm) then Buffer.add_string b " / BADPARAMS"
+    else (match run_passes_c prm answers s0 with
+      | ROk ((s, ex), rest) ->
+          List.iter (fun st -> Buffer.add_string b (" / CB " ^ show c st)) ex;
+          Buffer.add_string b (" / FINAL " ^ show c s);
+          Buffer.add_string b (Printf.sprintf " / REST %d" (List.length rest))
+      | RErr e -> Buffer.add_string b (" / ERR " ^ err_name e));
+    print_endline (Buffer.contents b)
+
 let () =
   try while true do
     let line = input_line stdin in
@@ -95,5 +135,5 @@ let () =
      | [] -> print_endline ""
      | tag :: r ->
        toks := r;
-       (try (match tag with "RN" -> do_rn () | "RW" -> do_rw () | _ -> print_endline "?TAG") with Short -> print_endline "?SHORT"))
+       (try (match tag with "RN" -> do_rn () | "RW" -> do_rw () | "RS" -> do_rs () | _ -> print_endline "?TAG") with Short -> print_endline "?SHORT"))
   done with End_of_file -> ()
